@@ -44,6 +44,9 @@ class DistFamily(common.Family):
         # calls a worker accepts at a time (a prefetching server still runs
         # one generator at a time, whatever this says)
         'max_parallelism': rng.choice([1, 1, 2, 3]),
+        # sharded mode without batch output: the caller only wants the
+        # aggregate and gets one None per batch
+        'no_batches': rng.random() < 0.2,
         'sim': {'fine': rng.random() < 0.1,
                 'stay': rng.choice([0.0, 0.5, 0.8])},
     }
@@ -106,10 +109,20 @@ class DistFamily(common.Family):
     if mode == 'sharded':
       rq = queue.SimpleQueue()
       outs = []
-      for b in orchestrate.sharded_pipelines_as_iterator(
-          pool, pipes.define_sharded, spec, num_shards=cfg['shards'],
-          result_queue=rq):
-        outs.append(pipes.batch_key(b))
+      if cfg.get('no_batches') and spec['aggs']:
+        handed = list(orchestrate.sharded_pipelines_as_iterator(
+            pool, pipes.define_sharded, spec, num_shards=cfg['shards'],
+            result_queue=rq, with_batch_output=False))
+        obs['placeholders'] = [len(handed), sum(1 for b in handed if b is not None)]
+        # the in-process aggregate-only run hands out one None per batch
+        it0 = pipes.define_sharded(spec).make().iterate(with_result=False)
+        obs['ref_placeholders'] = [sum(1 for _ in it0), 0]
+        outs = list(ref_out)
+      else:
+        for b in orchestrate.sharded_pipelines_as_iterator(
+            pool, pipes.define_sharded, spec, num_shards=cfg['shards'],
+            result_queue=rq):
+          outs.append(pipes.batch_key(b))
       obs['out'] = outs
       results = []
       if spec['aggs']:
@@ -200,6 +213,12 @@ class DistFamily(common.Family):
       res.append(v('outputs', ('lost' if lost else 'extra') + f':{mode}',
                    f'unit={"row" if by_rows else "batch"} '
                    f'lost={dict(lost)} extra={dict(extra)}'))
+    if obs.get('placeholders') is not None and \
+        obs['placeholders'] != obs['ref_placeholders'] and not by_rows:
+      res.append(v('outputs', f'placeholders:{mode}',
+                   f"without batch output the in-process run hands out "
+                   f"{obs['ref_placeholders'][0]} placeholders (None), the "
+                   f"{mode} run {obs['placeholders']} [count, not-None]"))
     if spec['aggs']:
       if obs['n_results'] != 1:
         res.append(v('aggregate', f'result-count:{mode}',
